@@ -16,12 +16,25 @@ REPO = os.environ.get("VERIF_REPO", "/repo")
 COQ = os.path.join(VERIF, "coq")
 PY = "/venv/bin/python"
 NPROC = int(os.environ.get("VERIF_JOBS", "16"))
-COQC_TIMEOUT = 600
+COQC_TIMEOUT = 400
 
 
 def sh(cmd, timeout=1200, cwd=None, env=None):
     p = subprocess.run(cmd, stdout=subprocess.PIPE, stderr=subprocess.STDOUT, text=True, timeout=timeout, cwd=cwd, env=env)
     return p.returncode, p.stdout
+
+
+import signal
+class ImplTimeout(Exception):
+    pass
+def with_timeout(f, *a, seconds=5.0):
+    """run an implementation call under a wall-clock limit (a mutated loop may not terminate)"""
+    def h(sig, frm): raise ImplTimeout()
+    old = signal.signal(signal.SIGALRM, h); signal.setitimer(signal.ITIMER_REAL, seconds)
+    try:
+        return f(*a)
+    finally:
+        signal.setitimer(signal.ITIMER_REAL, 0); signal.signal(signal.SIGALRM, old)
 
 
 class Lock:
@@ -108,7 +121,7 @@ class Ctx:
             if not os.path.exists(cp) or open(cp).read() != want or not os.path.exists(os.path.join(COQ, "Makefile")):
                 open(cp, "w").write(want)
                 sh(["coq_makefile", "-f", "_CoqProject", "-o", "Makefile"], cwd=COQ)
-            cmd = ["timeout", "1500", "make", "-j%d" % NPROC, "-k"] + (targets or [])
+            cmd = ["timeout", "1500", "make", "-j%d" % NPROC, "-k", "COQC=timeout 400 coqc"] + (targets or [])
             rc, out = sh(cmd, cwd=COQ, timeout=1600)
         self.checker_cmds.append("make -C coq -j%d %s" % (NPROC, " ".join(targets or [])))
         return rc == 0, out
